@@ -13,6 +13,7 @@ pub fn run_all(rounds: u64) -> Vec<String> {
   let mut fails = Vec::new();
   let mut inv = (0u32, 0u32);
   let mut rec = (0u32, 0u32);
+  let mut atom = (0u32, 0u32);
   let mut check = |name: &str, ok: bool, detail: String| {
     if !ok {
       fails.push(format!("{}: {}", name, detail));
@@ -267,8 +268,103 @@ pub fn run_all(rounds: u64) -> Vec<String> {
   }
   if rounds >= 50 && spurious_seen == 0 {
     fails.push("spurious wake-ups were never injected".into());
+
+  }
+  for r in 0..rounds {
+    let walk = if r == 0 { None } else { Some((r, 30)) };
+    // 14. mpsc: a worker fed through a channel; every item arrives once, in order, and the
+    //     receiver sees the disconnect
+    let got = std::sync::Arc::new(std::sync::Mutex::new(Vec::new()));
+    let g2 = got.clone();
+    let o = run(cfg(walk), move || {
+      let (tx, rx) = crate::stdx::sync::mpsc::channel::<u32>();
+      let g3 = g2.clone();
+      let h = thread::spawn(move || {
+        for x in rx {
+          g3.lock().unwrap().push(x);
+        }
+      });
+      let tx2 = tx.clone();
+      let h2 = thread::spawn(move || {
+        for i in 0..4 {
+          tx2.send(i).unwrap();
+        }
+      });
+      h2.join().unwrap();
+      tx.send(99).unwrap();
+      drop(tx);
+      h.join().unwrap();
+    });
+    let v = got.lock().unwrap().clone();
+    if !(o.kind == Kind::Done && v == vec![0, 1, 2, 3, 99]) {
+      fails.push(format!("mpsc: {} {:?}", o.describe(), v));
+    }
+
+    // 15. mpsc recv_timeout on the virtual clock, sync_channel back-pressure
+    let o = run(cfg(walk), move || {
+      let (tx, rx) = crate::stdx::sync::mpsc::channel::<u32>();
+      let t0 = crate::stdx::time::Instant::now();
+      let r = rx.recv_timeout(Duration::from_secs(3600));
+      assert!(r.is_err());
+      assert!(t0.elapsed() >= Duration::from_secs(3600));
+      drop(tx);
+      assert!(rx.recv().is_err());
+      let (stx, srx) = crate::stdx::sync::mpsc::sync_channel::<u32>(1);
+      let h = thread::spawn(move || {
+        for i in 0..5 {
+          stx.send(i).unwrap();
+        }
+      });
+      let v: Vec<u32> = srx.iter().collect();
+      assert_eq!(v, vec![0, 1, 2, 3, 4]);
+      h.join().unwrap();
+    });
+    if o.kind != Kind::Done {
+      fails.push(format!("mpsc-timeout: {}", o.describe()));
+    }
+
+    // 16. a spin-wait on an atomic with yield_now / spin_loop terminates under every
+    //     schedule; atomics keep lost-update races visible
+    let lost = std::sync::Arc::new(std::sync::atomic::AtomicUsize::new(0));
+    let l2 = lost.clone();
+    let o = run(cfg(walk), move || {
+      use crate::stdx::sync::atomic::{AtomicBool, AtomicUsize, Ordering};
+      let flag = Arc::new(AtomicBool::new(false));
+      let n = Arc::new(AtomicUsize::new(0));
+      let (f2, n2) = (flag.clone(), n.clone());
+      let h = thread::spawn(move || {
+        let v = n2.load(Ordering::SeqCst);
+        n2.store(v + 1, Ordering::SeqCst);
+        f2.store(true, Ordering::SeqCst);
+      });
+      let v = n.load(Ordering::SeqCst);
+      n.store(v + 1, Ordering::SeqCst);
+      let mut spins = 0;
+      while !flag.load(Ordering::SeqCst) {
+        if spins % 2 == 0 {
+          thread::yield_now();
+        } else {
+          crate::stdx::hint::spin_loop();
+        }
+        spins += 1;
+      }
+      h.join().unwrap();
+      l2.store(n.load(Ordering::SeqCst), Ordering::SeqCst);
+    });
+    let n = lost.load(std::sync::atomic::Ordering::SeqCst);
+    if !(o.kind == Kind::Done && (n == 1 || n == 2)) {
+      fails.push(format!("atomic-spin: {} n={}", o.describe(), n));
+    }
+    if n == 1 {
+      atom.0 += 1;
+    } else {
+      atom.1 += 1;
+    }
   }
   if rounds >= 50 {
+    if atom.0 == 0 || atom.1 == 0 {
+      fails.push(format!("atomic-spin: schedules not diverse: lost={} kept={}", atom.0, atom.1));
+    }
     if inv.0 == 0 || inv.1 == 0 {
       fails.push(format!("inversion: schedules not diverse: done={} deadlock={}", inv.0, inv.1));
     }
